@@ -3,6 +3,7 @@ package main
 import (
 	"go/token"
 	"go/types"
+	"sort"
 	"strings"
 
 	"golang.org/x/tools/go/ssa"
@@ -71,6 +72,150 @@ func headerWrite(i ssa.Instruction) (key string, keyConst bool, val ssa.Value, o
 		return k, kc, cc.Args[2], true
 	}
 	return "", false, nil, false
+}
+
+// headerRow is one (name, value) pair a header write can add.
+type headerRow struct {
+	Key string
+	Val ssa.Value
+}
+
+// headerWriteRows: like headerWrite with a constant name, and additionally a write inside a loop over a local table
+// of (name, value) structs - `for _, each := range [...]struct{name, value string}{{"Allow", m}, ...} { resp.AddHeader(each.name, each.value) }` -
+// which is the rows of that table.
+func headerWriteRows(i ssa.Instruction) ([]headerRow, bool) {
+	k, kc, v, ok := headerWrite(i)
+	if !ok {
+		return nil, false
+	}
+	if kc {
+		return []headerRow{{k, v}}, true
+	}
+	cc := callCommon(i)
+	var keyV ssa.Value
+	switch len(cc.Args) {
+	case 3:
+		keyV = cc.Args[1]
+	default:
+		return nil, false
+	}
+	elemField := func(x ssa.Value) (elem ssa.Value, field int, ok bool) {
+		switch y := strip(x).(type) {
+		case *ssa.Field:
+			return y.X, y.Field, true
+		case *ssa.UnOp:
+			if fa, ok := y.X.(*ssa.FieldAddr); ok && y.Op == token.MUL {
+				return fa.X, fa.Field, true
+			}
+		}
+		return nil, 0, false
+	}
+	ke, kf, ok1 := elemField(keyV)
+	ve, vf, ok2 := elemField(v)
+	if !ok1 || !ok2 || ke != ve {
+		return nil, false
+	}
+	// the element value: the struct itself, or the single value copied into the iteration variable
+	ev := ke
+	if a, ok := ke.(*ssa.Alloc); ok {
+		var whole []*ssa.Store
+		for _, r := range referrers(a) {
+			if st, ok := r.(*ssa.Store); ok && st.Addr == ssa.Value(a) {
+				whole = append(whole, st)
+			}
+		}
+		if len(whole) != 1 {
+			return nil, false
+		}
+		ev = strip(whole[0].Val)
+	}
+	// the table: *(&table[i]), &table[i], or (*table)[i]
+	var tbl ssa.Value
+	switch y := ev.(type) {
+	case *ssa.UnOp:
+		if ia, ok := y.X.(*ssa.IndexAddr); ok {
+			tbl = strip(ia.X)
+		}
+	case *ssa.IndexAddr:
+		tbl = strip(y.X)
+	case *ssa.Index:
+		if u, ok := strip(y.X).(*ssa.UnOp); ok && u.Op == token.MUL {
+			tbl = strip(u.X)
+		}
+	}
+	if sl, ok := tbl.(*ssa.Slice); ok {
+		tbl = strip(sl.X)
+	}
+	alloc, ok := tbl.(*ssa.Alloc)
+	if !ok {
+		return nil, false
+	}
+	rows := map[int64]*headerRow{}
+	fieldStores := func(obj ssa.Value, n int64) bool {
+		for _, r2 := range referrers(obj) {
+			fa, ok := r2.(*ssa.FieldAddr)
+			if !ok {
+				continue
+			}
+			for _, r3 := range referrers(fa) {
+				st, ok := r3.(*ssa.Store)
+				if !ok || st.Addr != ssa.Value(fa) {
+					continue
+				}
+				if rows[n] == nil {
+					rows[n] = &headerRow{}
+				}
+				switch fa.Field {
+				case kf:
+					s, isS := constStr(st.Val)
+					if !isS {
+						return false
+					}
+					rows[n].Key = s
+				case vf:
+					rows[n].Val = st.Val
+				}
+			}
+		}
+		return true
+	}
+	for _, r := range referrers(alloc) {
+		ea, ok := r.(*ssa.IndexAddr)
+		if !ok {
+			continue
+		}
+		n, isC := constInt(ea.Index)
+		if !isC {
+			continue // the loop's own access
+		}
+		if !fieldStores(ea, n) {
+			return nil, false
+		}
+		// element built as a literal of its own and stored whole
+		for _, r2 := range referrers(ea) {
+			st, ok := r2.(*ssa.Store)
+			if !ok || st.Addr != ssa.Value(ea) {
+				continue
+			}
+			u, ok := strip(st.Val).(*ssa.UnOp)
+			if !ok || u.Op != token.MUL {
+				return nil, false
+			}
+			lit, ok := u.X.(*ssa.Alloc)
+			if !ok || !fieldStores(lit, n) {
+				return nil, false
+			}
+		}
+	}
+	var out []headerRow
+	for _, r := range rows {
+		if r.Key == "" || r.Val == nil {
+			return nil, false
+		}
+		out = append(out, *r)
+	}
+	sort.Slice(out, func(a, b int) bool { return out[a].Key < out[b].Key })
+	return out, len(out) > 0
 }
 
 const corsType = "CrossOriginResourceSharing"
